@@ -265,8 +265,12 @@ kani("models::quantizer_symbol_table_i8_u8_p8", ["C05", "C20"], kind="bounded", 
 prop("C01", explanation="pop(push(c,e),e) == c and inv preserved: per-step contract on the real AnsCoder::encode_symbol/decode_symbol "
      "(Kani, complete at (u8,u16), every state/entry); export/import and batch forms; width-parametric Verus lemma lemma_pop_push + lemma_history "
      "(all balanced LIFO histories, per-symbol precisions); lift to all widths through the extracted-text refinement obligations (owned by C06).")
-prop("C02", level="model_checking", explanation="decoder step contract (all states), seal contract (all states, all suffixes), empty message; whole messages bounded (1-3 symbols); "
-     "Verus lemma layer: nested, coupling, bridge (any number of held-back words)")
+prop("C02", explanation="chain, every link machine-checked: real encode_symbol == ll_enc (Verus, 6 widths, any number of held-back words) == cstep (thm_ll_enc_is_cstep) "
+     "-> exact interval step (lemma_bridge); real decode_symbol == ll step (Verus, 6 widths, all P) == dec_step (thm_decode_is_dec_step); lemma_coupling + lemma_nested + "
+     "lemma_message_roundtrip (messages of ANY length); real seal == seal_words (Verus) and lemma_seal_window (State = 2 Words, all situations). "
+     "Kani: decoder step, seal + arbitrary suffix, read_point on the real code; whole messages of 1-3 symbols as a bounded cross-check.",
+     assumptions=["the step from `seal_words ++ suffix` to `contains(final interval, data)` (value of held-back words + window) is checked on the real code by Kani at (u8,u16) and (u16,u32) "
+                  "(range::*::seal_suffix) and by lemma_seal_window at the window level for all widths with State = 2 Words; the two are not composed into one Verus theorem"])
 prop("C03", level="model_checking", explanation="model contract (tiling, non-empty, no probability one, rejection outside support, quantile == encoder view) for every constructor output: "
      "uniform complete over all ranges; fixed-point tables over all u8 tables of <= 3 entries; float tables 3 x f32 all bit patterns; quantiser encoder view under any monotone CDF stub")
 prop("C04", explanation="push(pop(c,e),e) == c per step (Kani) + lemma_push_pop/lemma_bits_back (Verus, all widths/lengths) + raw binary import/export for any words")
@@ -291,8 +295,10 @@ prop("C20", explanation="per type with unsafe code: constructors establish the i
 
 claim("C01", "Per-step contract decode(encode(c,e),e) == (sym,c) with invariant preservation for every state/entry at (u8,u16) on the real code; "
       "export/import inverse and batch forms == loop; history/width generalisation by Verus lemmas.", K_NOTE, "function contracts (Kani) + Verus lemmas")
-claim("C02", "Decoder-step and seal contracts for all states at (u8,u16); whole messages bounded to <= 3 symbols; interval-arithmetic lemmas in Verus.",
-      K_NOTE + "; message-level induction over the coupling lemma is a Verus lemma over the math model, linked to the code by the C06 refinement harnesses", "function contracts (Kani) + Verus lemmas + bounded whole-message Kani")
+claim("C02", "Unbounded: extracted encode/decode/seal bodies verified against layer-B step functions (Verus, 6 widths, all P, any number of held-back words), bridged to the interval "
+      "model, and lemma_message_roundtrip closes messages of any length; Kani contracts on the real crate at (u8,u16) incl. whole messages of <= 3 symbols.",
+      K_NOTE + "; the composition of seal_words with the data-value predicate is checked by Kani at two width pairs, not as one Verus theorem (listed in the evidence)",
+      "Verus contracts on extracted text + bridging theorems + interval lemmas; Kani function contracts")
 claim("C03", "Model contract for every constructor output within the stated bounds.", "Kani on the real model code; Vec-backed tables bounded to <= 3 entries; CDFs abstracted as arbitrary monotone functions (A-cdf)", "function contracts (Kani)")
 claim("C04", "Per-step contract encode(decode(c,e),e) == c for every invariant state; raw-binary import/export inverse for any words.", K_NOTE, "function contracts (Kani) + Verus lemmas")
 claim("C05", "Representations agree symbol by symbol / quantile by quantile within the stated bounds.", "Kani on the real code, bounded tables", "function contracts (Kani)")
